@@ -693,6 +693,26 @@ Proof.
     try (apply orb_true_iff in H; destruct H as [H | H]; [rewrite H; auto | discriminate]).
 Qed.
 
+(* lifted to whole executions: once up, the signal is up in every later state; once resolved, `stopped` stays resolved *)
+Lemma sig_run : forall tr s, sig s = true -> sig (run s tr) = true.
+Proof. induction tr as [|a r IH]; cbn [run]; intros s H; [exact H|]. apply IH, sig_mono, H. Qed.
+
+Lemma resolved_mono : forall s a, s_resolved s = true -> s_resolved (fst (step s a)) = true.
+Proof.
+  intros s a H.
+  destruct a; unfold step;
+    repeat match goal with |- context [match ?e with _ => _ end] => destruct e eqn:? end;
+    simpl in *; auto.
+Qed.
+
+Lemma resolved_run : forall tr s, s_resolved s = true -> s_resolved (run s tr) = true.
+Proof. induction tr as [|a r IH]; cbn [run]; intros s H; [exact H|]. apply IH, resolved_mono, H. Qed.
+
+Lemma stop_monotone : forall cap tr1 tr2,
+  (sig (run (init_cap cap) tr1) = true -> sig (run (init_cap cap) (tr1 ++ tr2)) = true) /\
+  (s_resolved (run (init_cap cap) tr1) = true -> s_resolved (run (init_cap cap) (tr1 ++ tr2)) = true).
+Proof. intros cap tr1 tr2. rewrite run_app. split; [apply sig_run | apply resolved_run]. Qed.
+
 Lemma stop_idempotent : forall s,
   let s1 := fst (step s Stop) in
   fst (step s1 Stop) = s1 /\
